@@ -84,6 +84,12 @@ def step (st : ESt) (toks : List String) : ESt × String :=
     match recvFrame st.encOn st.wire {} with
     | (.ok (fl, p, rest), _) => ({ st with wire := rest }, s!"ok {fl} {showBytes p} rest={rest.length}")
     | (.error e, _) => (st, errStr e)
+  | ["recvn"] => wireReply st (recvFrameNE st.encOn st.wire {})
+  | ["getsecret"] => wireReply st (getSecretW st.encOn st.encOn st.wire {})
+  | ["getfile"] =>
+    match getFile st.encOn st.wire {} with
+    | (.ok (n, rest), _) => ({ st with wire := rest }, s!"ok {n} rest={rest.length}")
+    | (.error e, _) => (st, errStr e)
   | ["passsock", pl] =>
     match parsePayload pl with
     | some b =>
